@@ -236,12 +236,13 @@ theorem getRange_agrees (rh : Option Bytes) (r : ReqRange) (h : getRange (rangeO
 
 /-! ### arithmetic on the domain where the code is right -/
 
-/-- the parsed ranges that lie inside a resource of length `n` -/
+/-- the parsed ranges that select bytes of a resource of length `n`: `a-b` and `a-` inside it, and
+    every suffix `-k` with `k ≥ 1` (a suffix longer than the resource selects all of it) -/
 def InDomain (n : Int) (r : ReqRange) : Prop :=
   match r.s, r.e with
   | some s, some e => 0 ≤ s ∧ s ≤ e ∧ e ≤ n - 1
   | some s, none => 0 ≤ s ∧ s ≤ n - 1
-  | none, some e => -n ≤ e ∧ e ≤ -1
+  | none, some e => minInt64 ≤ e ∧ e ≤ -1
   | none, none => True
 
 /-- **offset arithmetic**, for every length and every parsed range inside the resource:
@@ -251,7 +252,8 @@ theorem window_arith (n : Int) (r : ReqRange) (hn : 0 < n) (hmax : n ≤ maxInt6
   obtain ⟨s, e⟩ := r
   unfold maxInt64 at hmax
   cases s <;> cases e <;>
-    simp only [InDomain, ReqRange.start, ReqRange.end, ReqRange.size, wrap64] at hd ⊢ <;> omega
+    simp only [InDomain, ReqRange.start, ReqRange.end, ReqRange.size, wrap64, minInt64] at hd ⊢ <;>
+    (try split) <;> omega
 
 /-- the three values, form by form -/
 theorem arith_fromTo (n : Int) (a b : Int) (h0 : 0 ≤ a) (hab : a ≤ b) (hb : b < maxInt64) :
@@ -266,16 +268,20 @@ theorem arith_from (n : Int) (a : Int) (hn : 0 < n) (hmax : n ≤ maxInt64) (h0 
   unfold maxInt64 at hmax
   refine ⟨?_, ?_, ?_⟩ <;> simp only [ReqRange.start, ReqRange.end, ReqRange.size, wrap64] <;> omega
 
-theorem arith_suffix (n : Int) (k : Int) (hn : 0 < n) (hmax : n ≤ maxInt64) (h1 : 1 ≤ k) (hk : k ≤ n) :
-    (ReqRange.mk none (some (-k))).start n = n - k ∧ (ReqRange.mk none (some (-k))).end n = n - 1 ∧
-    (ReqRange.mk none (some (-k))).size n = k := by
+/-- every suffix `-k`, `0 ≤ k ≤ 2^63`: the window is the last `min k n` bytes (the start is clamped
+    at the first byte when `k > n`) -/
+theorem arith_suffix (n : Int) (k : Int) (hn : 0 < n) (hmax : n ≤ maxInt64) (h0 : 0 ≤ k) (hk : minInt64 ≤ -k) :
+    (ReqRange.mk none (some (-k))).start n = n - min k n ∧ (ReqRange.mk none (some (-k))).end n = n - 1 ∧
+    (ReqRange.mk none (some (-k))).size n = min k n := by
   unfold maxInt64 at hmax
-  refine ⟨?_, ?_, ?_⟩ <;> simp only [ReqRange.start, ReqRange.end, ReqRange.size, wrap64] <;> omega
+  unfold minInt64 at hk
+  refine ⟨?_, ?_, ?_⟩ <;> simp only [ReqRange.start, ReqRange.end, ReqRange.size, wrap64] <;>
+    (try split) <;> omega
 
 /-! ### `setRangedHeaders`, `sendBody` window -/
 
 theorem setRanged_inside (r : ReqRange) (n : Int) (hn : 0 < n) (hmax : n ≤ maxInt64)
-    (hs : ∀ s, r.s = some s → s ≤ n - 1) (he : ∀ e, r.e = some e → e ≤ n - 1) :
+    (hs : ∀ s, r.s = some s → s ≤ n - 1) (he : ∀ e, r.e = some e → e ≤ n - 1) (h0 : emptySuffix r = false) :
     setRangedHeaders (some r) n 200 = (206, some (itoa (r.size n), r.contentRangeValue n)) := by
   unfold maxInt64 at hmax
   have hw : wrap64 (n - 1) = n - 1 := wrap64_id (by omega) (by omega)
@@ -292,7 +298,15 @@ theorem setRanged_inside (r : ReqRange) (n : Int) (hn : 0 < n) (hmax : n ≤ max
     cases h : r.e with
     | none => rfl
     | some e => have := he e h; simp; omega
-  simp [e1, e2]
+  simp [e1, e2, h0]
+
+/-- a suffix of length zero is unsatisfiable -/
+theorem setRanged_emptySuffix (r : ReqRange) (n : Int) (hn : 0 < n) (h0 : emptySuffix r = true) :
+    setRangedHeaders (some r) n 200 = (416, none) := by
+  unfold setRangedHeaders
+  simp only [ne_eq, not_true_eq_false, false_or]
+  rw [if_neg (by omega)]
+  simp [h0]
 
 theorem setRanged_outside (r : ReqRange) (n : Int) (hn : 0 < n) (hmax : n ≤ maxInt64)
     (h : (∃ s, r.s = some s ∧ s > n - 1) ∨ (∃ e, r.e = some e ∧ e > n - 1)) :
@@ -344,11 +358,17 @@ theorem respondFill_eq_hit (body : Bytes) (r : ReqRange) (hn : body.length ≠ 0
   simp [respondFill, respondHit, hn, cacheGate]
 
 theorem hit_inside (body : Bytes) (r : ReqRange) (hn : body.length ≠ 0) (hmax : (body.length : Int) ≤ maxInt64)
-    (hs : ∀ s, r.s = some s → s ≤ (body.length : Int) - 1) (he : ∀ e, r.e = some e → e ≤ (body.length : Int) - 1) :
+    (hs : ∀ s, r.s = some s → s ≤ (body.length : Int) - 1) (he : ∀ e, r.e = some e → e ≤ (body.length : Int) - 1)
+    (h0 : emptySuffix r = false) :
     respondHit 200 (some (body.length : Int)) body (some r) =
       ⟨206, some (itoa (r.size body.length)), some (r.contentRangeValue body.length), sendBodyWindow (some r) body⟩ := by
   have hpos : (0 : Int) < body.length := by omega
-  simp [respondHit, hn, setRanged_inside r _ hpos hmax hs he, mergedLength, mergedRange]
+  simp [respondHit, hn, setRanged_inside r _ hpos hmax hs he h0, mergedLength, mergedRange]
+
+theorem hit_emptySuffix (body : Bytes) (r : ReqRange) (hn : body.length ≠ 0) (h0 : emptySuffix r = true) :
+    respondHit 200 (some (body.length : Int)) body (some r) = bare 416 := by
+  have hpos : (0 : Int) < body.length := by omega
+  simp [respondHit, hn, setRanged_emptySuffix r _ hpos h0]
 
 theorem hit_outside (body : Bytes) (r : ReqRange) (hn : body.length ≠ 0) (hmax : (body.length : Int) ≤ maxInt64)
     (h : (∃ s, r.s = some s ∧ s > (body.length : Int) - 1) ∨ (∃ e, r.e = some e ∧ e > (body.length : Int) - 1)) :
@@ -360,11 +380,12 @@ theorem hit_outside (body : Bytes) (r : ReqRange) (hn : body.length ≠ 0) (hmax
 theorem view_inside (body : Bytes) (r : ReqRange) (first last : Nat) (hn : body.length ≠ 0)
     (hmax : (body.length : Int) ≤ maxInt64)
     (hs : ∀ s, r.s = some s → s ≤ (body.length : Int) - 1) (he : ∀ e, r.e = some e → e ≤ (body.length : Int) - 1)
+    (h0 : emptySuffix r = false)
     (hstart : r.start (body.length : Int) = (first : Int)) (hend : r.end (body.length : Int) = (last : Int))
     (hsize : r.size (body.length : Int) = ((last + 1 - first : Nat) : Int)) (hfl : first ≤ last) :
     partialHeaders body.length first last (respondHit 200 (some (body.length : Int)) body (some r)) = true ∧
     ((respondHit 200 (some (body.length : Int)) body (some r)).body == slice body first last) = true := by
-  rw [hit_inside body r hn hmax hs he]
+  rw [hit_inside body r hn hmax hs he h0]
   refine ⟨?_, ?_⟩
   · simp only [partialHeaders, ReqRange.contentRangeValue, hstart, hend, hsize, itoa_natCast, contentRangeText]
     simp
@@ -380,11 +401,10 @@ theorem allowed_full (st : Nat) (body : Bytes) (clh : Option Int) (sp : RangeSpe
   · simp [h, clText, itoa_natCast]
 
 /-- **the arithmetic core, on parsed ranges**: for every non-empty body and every parsed range that
-    agrees with a specified range outside the classes C15-a and C15-b, the hit path's response is
-    in the allowed set -/
+    agrees with a specified range (all three forms, every `a`, `b`, `k` — also `-k` with `k` beyond the
+    length and `-0`, the former classes C15-a and C15-b), the hit path's response is in the allowed set -/
 theorem hit_parsed_allowed (body : Bytes) (r : ReqRange) (sp : RangeSpec) (hag : Agrees r sp)
-    (hr : sp.isRange = true) (hn : body.length ≠ 0) (hmax : (body.length : Int) ≤ maxInt64)
-    (hk : ∀ k, sp = .suffix k → 1 ≤ k ∧ k ≤ body.length) :
+    (hr : sp.isRange = true) (hn : body.length ≠ 0) (hmax : (body.length : Int) ≤ maxInt64) :
     allowedSpec 200 body sp (respondHit 200 (some (body.length : Int)) body (some r)) = true := by
   have hmax' := hmax
   unfold maxInt64 at hmax'
@@ -396,7 +416,7 @@ theorem hit_parsed_allowed (body : Bytes) (r : ReqRange) (sp : RangeSpec) (hag :
     by_cases hbn : b < body.length
     · have ar := arith_fromTo (body.length : Int) (a : Int) (b : Int) (by omega) (by omega) (by unfold maxInt64; omega)
       obtain ⟨h1, h2⟩ := view_inside body ⟨some (a : Int), some (b : Int)⟩ a b hn hmax
-        (by intro s hs; simp at hs; omega) (by intro e he; simp at he; omega)
+        (by intro s hs; simp at hs; omega) (by intro e he; simp at he; omega) rfl
         ar.1 ar.2.1 (by rw [ar.2.2]; omega) hab
       unfold allowedSpec allowedWith
       have hmin : min b (body.length - 1) = b := by omega
@@ -409,7 +429,7 @@ theorem hit_parsed_allowed (body : Bytes) (r : ReqRange) (sp : RangeSpec) (hag :
     by_cases han : a < body.length
     · have ar := arith_from (body.length : Int) (a : Int) (by omega) hmax (by omega) (by omega)
       obtain ⟨h1, h2⟩ := view_inside body ⟨some (a : Int), none⟩ a (body.length - 1) hn hmax
-        (by intro s hs; simp at hs; omega) (by intro e he; simp at he)
+        (by intro s hs; simp at hs; omega) (by intro e he; simp at he) rfl
         ar.1 (by rw [ar.2.1]; omega) (by rw [ar.2.2]; omega) (by omega)
       unfold allowedSpec allowedWith
       simp [han, h1, h2]
@@ -417,15 +437,21 @@ theorem hit_parsed_allowed (body : Bytes) (r : ReqRange) (sp : RangeSpec) (hag :
       unfold allowedSpec allowedWith
       simp [show body.length ≤ a by omega, bare]
   | suffix k =>
-    obtain ⟨rfl, _⟩ := hag
-    obtain ⟨hk1, hkn⟩ := hk k rfl
-    have ar := arith_suffix (body.length : Int) (k : Int) (by omega) hmax (by omega) (by omega)
-    obtain ⟨h1, h2⟩ := view_inside body ⟨none, some (-(k : Int))⟩ (body.length - k) (body.length - 1) hn hmax
-      (by intro s hs; simp at hs) (by intro e he; simp at he; omega)
-      (by rw [ar.1]; omega) (by rw [ar.2.1]; omega) (by rw [ar.2.2]; omega) (by omega)
-    unfold allowedSpec allowedWith
-    have hmin : min k body.length = k := by omega
-    simp [hmin, show 0 < k by omega, show 0 < body.length by omega, h1, h2]
+    obtain ⟨rfl, hkmin⟩ := hag
+    by_cases hk0 : k = 0
+    · -- `-0`: unsatisfiable
+      subst hk0
+      rw [hit_emptySuffix body _ hn (by simp [emptySuffix])]
+      unfold allowedSpec allowedWith
+      simp [bare]
+    · -- `-k`, `k ≥ 1`: the last `min k n` bytes
+      have ar := arith_suffix (body.length : Int) (k : Int) (by omega) hmax (by omega) hkmin
+      obtain ⟨h1, h2⟩ := view_inside body ⟨none, some (-(k : Int))⟩ (body.length - min k body.length) (body.length - 1) hn hmax
+        (by intro s hs; simp at hs) (by intro e he; simp at he; omega)
+        (by simp only [emptySuffix, decide_eq_false_iff_not]; omega)
+        (by rw [ar.1]; omega) (by rw [ar.2.1]; omega) (by rw [ar.2.2]; omega) (by omega)
+      unfold allowedSpec allowedWith
+      simp [show 0 < k by omega, show 0 < body.length by omega, h1, h2]
 
 theorem parseSet_ne_absent (rest : Bytes) : parseSet rest ≠ .absent := by
   unfold parseSet
@@ -461,8 +487,10 @@ def Statement : Prop := range_hit_exact ∧ range_miss_exact ∧ origin_asked_fo
 /-- **C15 outside the known-finding classes, both paths, every input.**
     For every resource (status, body, `Content-Length` header absent or equal to the length, length
     within int64), every `Range` header value (any byte string) and both paths: if the input lies in
-    none of the classes C15-a, -b, -c, -d, -f, -g, the model's response is in the allowed set.
-    Missing for the full statement: exactly those classes (each refuted below by a witness). -/
+    none of the classes C15-c, -d, -f, -g, the model's response is in the allowed set.
+    Missing for the full statement: exactly those classes (each refuted below by a witness).
+    (The classes C15-a and C15-b — `bytes=-k` beyond the length, `bytes=-0` — were hypotheses here
+    until the suffix arithmetic was repaired; those inputs are now covered.) -/
 theorem range_exact_partial (x : Input)
     (hcl : x.clh = none ∨ x.clh = some (x.body.length : Int))
     (hmax : (x.body.length : Int) ≤ maxInt64)
@@ -472,7 +500,7 @@ theorem range_exact_partial (x : Input)
   obtain ⟨path, st, clh, body, rh⟩ := x
   simp only at hcl hmax hgate ⊢
   simp only [inViewClass, Bool.or_eq_false_iff] at hc
-  obtain ⟨⟨⟨⟨⟨ha, hb⟩, hcc⟩, hd⟩, hf⟩, hg⟩ := hc
+  obtain ⟨⟨⟨hcc, hd⟩, hf⟩, hg⟩ := hc
   unfold holds allowed respond respondParsed
   simp only
   cases hrr : getRange (rangeOnlyHeader rh) with
@@ -509,13 +537,7 @@ theorem range_exact_partial (x : Input)
         exact ⟨h, by omega⟩
     obtain ⟨hcle, hn⟩ := hclen
     subst hcle
-    have hk : ∀ k, parseRange rh = .suffix k → 1 ≤ k ∧ k ≤ body.length := by
-      intro k hk
-      simp only [inClass_C15_a, hk, beq_self_eq_true, Bool.true_and, decide_eq_false_iff_not] at ha
-      simp only [inClass_C15_b, hk, beq_self_eq_true, Bool.true_and, beq_eq_false_iff_ne, ne_eq,
-        RangeSpec.suffix.injEq] at hb
-      omega
-    have hhit := hit_parsed_allowed body r (parseRange rh) hag hrange hn hmax hk
+    have hhit := hit_parsed_allowed body r (parseRange rh) hag hrange hn hmax
     cases path with
     | hit => exact hhit
     | fill => simp only; rw [respondFill_eq_hit body r hn]; exact hhit
@@ -536,17 +558,25 @@ theorem range_miss_exact_partial (st : Nat) (clh : Option Int) (body : Bytes) (r
 
 /-! ### refutation of the full statements (the code's defects, on the model) -/
 
-/-- C15-a: `bytes=-99` on 4 bytes: `206`, `Content-Range: bytes -95-3/4`, `Content-Length: 99`, no body -/
-theorem witness_a_view : respond .hit 200 (some 4) b!"abcd" (some b!"bytes=-99") =
-    ⟨206, some b!"99", some b!"bytes -95-3/4", []⟩ := by decide
-theorem fails_witness_a : holds ⟨.hit, 200, some 4, b!"abcd", some b!"bytes=-99"⟩
-    (respond .hit 200 (some 4) b!"abcd" (some b!"bytes=-99")) = false := by decide
+-- former finding C15-a, repaired: `bytes=-99` on 4 bytes used to give `206`,
+-- `Content-Range: bytes -95-3/4`, `Content-Length: 99` and no body; it now selects the whole resource,
+-- on the hit path and on the filling path alike
+example : respond .hit 200 (some 4) b!"abcd" (some b!"bytes=-99") =
+    ⟨206, some b!"4", some b!"bytes 0-3/4", b!"abcd"⟩ := by decide
+example : respond .fill 200 (some 4) b!"abcd" (some b!"bytes=-99") =
+    ⟨206, some b!"4", some b!"bytes 0-3/4", b!"abcd"⟩ := by decide
+example : holds ⟨.hit, 200, some 4, b!"abcd", some b!"bytes=-99"⟩
+    (respond .hit 200 (some 4) b!"abcd" (some b!"bytes=-99")) = true := by decide
+example : holds ⟨.fill, 200, some 12, b!"abcdefghijkl", some b!"bytes=-13"⟩
+    (respond .fill 200 (some 12) b!"abcdefghijkl" (some b!"bytes=-13")) = true := by decide
 
-/-- C15-b: `bytes=-0`: `206`, `Content-Range: bytes 4-3/4`, `Content-Length: 0` -/
-theorem witness_b_view : respond .hit 200 (some 4) b!"abcd" (some b!"bytes=-0") =
-    ⟨206, some b!"0", some b!"bytes 4-3/4", []⟩ := by decide
-theorem fails_witness_b : holds ⟨.hit, 200, some 4, b!"abcd", some b!"bytes=-0"⟩
-    (respond .hit 200 (some 4) b!"abcd" (some b!"bytes=-0")) = false := by decide
+-- former finding C15-b, repaired: `bytes=-0` used to give `206`, `Content-Range: bytes 4-3/4`,
+-- `Content-Length: 0`; it is now unsatisfiable (`416`), both paths, and nothing is stored by the fill
+example : respond .hit 200 (some 4) b!"abcd" (some b!"bytes=-0") = bare 416 := by decide
+example : respond .fill 200 (some 4) b!"abcd" (some b!"bytes=-0") = bare 416 := by decide
+example : holds ⟨.hit, 200, some 4, b!"abcd", some b!"bytes=-0"⟩
+    (respond .hit 200 (some 4) b!"abcd" (some b!"bytes=-0")) = true := by decide
+example : fillThenHit 200 (some 1) b!"a" (some b!"bytes=-0") = (bare 416, none) := by decide
 
 /-- C15-c: entry without `Content-Length`: `200` whose body is only the slice — both paths -/
 theorem witness_c_view : respond .hit 200 none b!"abcdef" (some b!"bytes=1-3") = ⟨200, none, none, b!"bcd"⟩ := by decide
@@ -578,8 +608,6 @@ theorem fails_witness_h : originOk (forwardsRange (some b!"bytes=0-1,3-4")) = fa
 
 /-- every witness lies in the class named after it -/
 theorem witnesses_in_class :
-    inClass_C15_a ⟨.hit, 200, some 4, b!"abcd", some b!"bytes=-99"⟩ = true ∧
-    inClass_C15_b ⟨.hit, 200, some 4, b!"abcd", some b!"bytes=-0"⟩ = true ∧
     inClass_C15_c ⟨.hit, 200, none, b!"abcdef", some b!"bytes=1-3"⟩ = true ∧
     inClass_C15_d ⟨.hit, 404, some 6, b!"abcdef", some b!"bytes=1-3"⟩ = true ∧
     inClass_C15_f ⟨.hit, 404, some 0, [], some b!"bytes=0-3"⟩ = true ∧
@@ -588,8 +616,8 @@ theorem witnesses_in_class :
 
 theorem range_hit_exact_false : ¬ range_hit_exact := by
   intro h
-  have := h 200 (some 4) b!"abcd" (some b!"bytes=-99") (Or.inr rfl)
-  rw [fails_witness_a] at this
+  have := h 200 none b!"abcdef" (some b!"bytes=1-3") (Or.inl rfl)
+  rw [fails_witness_c] at this
   cases this
 
 theorem range_miss_exact_false : ¬ range_miss_exact := by
@@ -657,8 +685,8 @@ theorem contentLengthFromRange_rendered (r : ReqRange) (m : Nat) (h : (m : Int) 
 /-- **`stored_full`**: whatever `Range` the filling client sent, a `200` origin answer with
     `Content-Length: n` is either not stored at all (the early `416`) or stored as status `200` with
     `Content-Length: n` — the `206` sent to the client is rewritten with the total taken from its
-    `Content-Range`, for every parsed range, including the garbage ones of C15-a and C15-b. (The stored
-    bytes are the whole origin body by construction of the writer path.) -/
+    `Content-Range`, for every parsed range. (The stored bytes are the whole origin body by
+    construction of the writer path.) -/
 theorem stored_full (body : Bytes) (rh : Option Bytes) (hmax : (body.length : Int) ≤ maxInt64) :
     (respond .fill 200 (some (body.length : Int)) body rh).status = 416 ∨
     storeRewrite (respond .fill 200 (some (body.length : Int)) body rh) = (200, some (natDigits body.length)) := by
@@ -679,7 +707,10 @@ theorem stored_full (body : Bytes) (rh : Option Bytes) (hmax : (body.length : In
     · rw [respondFill_eq_hit body r hn]
       by_cases h : (∃ s, r.s = some s ∧ s > (body.length : Int) - 1) ∨ (∃ e, r.e = some e ∧ e > (body.length : Int) - 1)
       · left; rw [hit_outside body r hn hmax h]; rfl
-      · right
+      · by_cases h0 : emptySuffix r = true
+        · left; rw [hit_emptySuffix body r hn h0]; rfl
+        right
+        have h0 : emptySuffix r = false := by simpa using h0
         have hs : ∀ s, r.s = some s → s ≤ (body.length : Int) - 1 := by
           intro s hs
           by_cases hgt : s ≤ (body.length : Int) - 1
@@ -690,7 +721,7 @@ theorem stored_full (body : Bytes) (rh : Option Bytes) (hmax : (body.length : In
           by_cases hgt : e ≤ (body.length : Int) - 1
           · exact hgt
           · exact absurd (Or.inr ⟨e, he, by omega⟩) h
-        rw [hit_inside body r hn hmax hs he]
+        rw [hit_inside body r hn hmax hs he h0]
         simp only [storeRewrite, if_true, Option.getD_some, contentLengthFromRange_rendered r body.length hmax]
         have : (natDigits body.length).length > 0 := List.length_pos_iff.2 (natDigits_ne_nil _)
         simp [this]
@@ -757,7 +788,7 @@ theorem range_hit_exact_fromTo (body : Bytes) (a b : Nat) (hn : body.length ≠ 
   apply range_hit_exact_partial 200 _ body _ (Or.inr rfl) hmax
   have hne : body.isEmpty = false := by cases body with | nil => simp at hn | cons _ _ => rfl
   have hb0 : body ≠ [] := by intro e; subst e; simp at hn
-  simp [inViewClass, inClass_C15_a, inClass_C15_b, inClass_C15_c, inClass_C15_d, inClass_C15_f, inClass_C15_g,
+  simp [inViewClass, inClass_C15_c, inClass_C15_d, inClass_C15_f, inClass_C15_g,
     parseRange_textFromTo a b hab, RangeSpec.isRange, hne, hb0]
 
 /-- … every request `bytes=a-` -/
@@ -768,20 +799,20 @@ theorem range_hit_exact_from (body : Bytes) (a : Nat) (hn : body.length ≠ 0)
   apply range_hit_exact_partial 200 _ body _ (Or.inr rfl) hmax
   have hne : body.isEmpty = false := by cases body with | nil => simp at hn | cons _ _ => rfl
   have hb0 : body ≠ [] := by intro e; subst e; simp at hn
-  simp [inViewClass, inClass_C15_a, inClass_C15_b, inClass_C15_c, inClass_C15_d, inClass_C15_f, inClass_C15_g,
+  simp [inViewClass, inClass_C15_c, inClass_C15_d, inClass_C15_f, inClass_C15_g,
     parseRange_textFrom a, RangeSpec.isRange, hne, hb0]
 
-/-- … every request `bytes=-k` with `1 ≤ k ≤ n` -/
+/-- … every request `bytes=-k`, EVERY `k` (`1 ≤ k ≤ n`: the last `k` bytes; `k > n`: the whole resource
+    as `206 bytes 0-(n-1)/n`; `k = 0`: `416`; `k` beyond int64: the complete `200`) -/
 theorem range_hit_exact_suffix (body : Bytes) (k : Nat) (hn : body.length ≠ 0)
-    (hmax : (body.length : Int) ≤ maxInt64) (hk1 : 1 ≤ k) (hkn : k ≤ body.length) :
+    (hmax : (body.length : Int) ≤ maxInt64) :
     holds ⟨.hit, 200, some (body.length : Int), body, some (textSuffix k)⟩
       (respond .hit 200 (some (body.length : Int)) body (some (textSuffix k))) = true := by
   apply range_hit_exact_partial 200 _ body _ (Or.inr rfl) hmax
   have hne : body.isEmpty = false := by cases body with | nil => simp at hn | cons _ _ => rfl
   have hb0 : body ≠ [] := by intro e; subst e; simp at hn
-  simp [inViewClass, inClass_C15_a, inClass_C15_b, inClass_C15_c, inClass_C15_d, inClass_C15_f, inClass_C15_g,
+  simp [inViewClass, inClass_C15_c, inClass_C15_d, inClass_C15_f, inClass_C15_g,
     parseRange_textSuffix k, RangeSpec.isRange, hne, hb0]
-  omega
 
 /-- … and every header value the code cannot parse (any status, any stored header): the complete response -/
 theorem range_hit_exact_unparsable (st : Nat) (clh : Option Int) (body : Bytes) (rh : Option Bytes)
@@ -854,12 +885,57 @@ theorem range_exact_bytes (path : Path) (body : Bytes) (a b : Nat) (hn : body.le
     rw [ar.2.2]; omega
   have hhit : respondHit 200 (some (body.length : Int)) body (some ⟨some (a : Int), some (b : Int)⟩) =
       ⟨206, some (natDigits (b + 1 - a)), some (contentRangeText a b body.length), slice body a b⟩ := by
-    rw [hit_inside body _ hn hmax (by intro s hs; simp at hs; omega) (by intro e he; simp at he; omega)]
+    rw [hit_inside body _ hn hmax (by intro s hs; simp at hs; omega) (by intro e he; simp at he; omega) rfl]
     rw [window_slice _ body a b ar.1 hsz hab]
     simp only [ReqRange.contentRangeValue, ar.1, ar.2.1, hsz, itoa_natCast, contentRangeText]
   cases path with
   | hit => exact hhit
   | fill => simp only; rw [respondFill_eq_hit body _ hn]; exact hhit
+
+/-- **the suffix form, exactly (the repaired arithmetic).** For ALL bodies of length `n > 0`, stored
+    status `200` with `Content-Length: n`, and ALL `k` with `1 ≤ k ≤ 2^63` (every suffix length the
+    code's parser lets through): the parsed range `-k` is answered, on the hit path and on the
+    filling path alike, with `206`, `Content-Length: min k n`, `Content-Range: bytes (n - min k n)-(n-1)/n`
+    and exactly the last `min k n` bytes — for `k > n` the whole resource (former finding C15-a). -/
+theorem range_exact_suffix_parsed (path : Path) (body : Bytes) (k : Nat) (hn : body.length ≠ 0)
+    (hmax : (body.length : Int) ≤ maxInt64) (hk1 : 1 ≤ k) (hk : minInt64 ≤ -(k : Int)) :
+    respondParsed path 200 (some (body.length : Int)) body (some ⟨none, some (-(k : Int))⟩) =
+      ⟨206, some (natDigits (min k body.length)),
+        some (contentRangeText (body.length - min k body.length) (body.length - 1) body.length),
+        slice body (body.length - min k body.length) (body.length - 1)⟩ := by
+  have hmax' := hmax
+  unfold maxInt64 at hmax'
+  have ar := arith_suffix (body.length : Int) (k : Int) (by omega) hmax (by omega) hk
+  have hst : (ReqRange.mk none (some (-(k : Int)))).start (body.length : Int) =
+      ((body.length - min k body.length : Nat) : Int) := by rw [ar.1]; omega
+  have hen : (ReqRange.mk none (some (-(k : Int)))).end (body.length : Int) = ((body.length - 1 : Nat) : Int) := by
+    rw [ar.2.1]; omega
+  have hsz : (ReqRange.mk none (some (-(k : Int)))).size (body.length : Int) =
+      ((body.length - 1 + 1 - (body.length - min k body.length) : Nat) : Int) := by rw [ar.2.2]; omega
+  have hsz' : (ReqRange.mk none (some (-(k : Int)))).size (body.length : Int) = ((min k body.length : Nat) : Int) := by
+    rw [ar.2.2]; omega
+  have hhit : respondHit 200 (some (body.length : Int)) body (some ⟨none, some (-(k : Int))⟩) =
+      ⟨206, some (natDigits (min k body.length)),
+        some (contentRangeText (body.length - min k body.length) (body.length - 1) body.length),
+        slice body (body.length - min k body.length) (body.length - 1)⟩ := by
+    rw [hit_inside body _ hn hmax (by intro s hs; simp at hs) (by intro e he; simp at he; omega)
+      (by simp only [emptySuffix, decide_eq_false_iff_not]; omega)]
+    rw [window_slice _ body _ _ hst hsz (by omega)]
+    simp only [ReqRange.contentRangeValue, hst, hen, hsz', itoa_natCast, contentRangeText]
+  cases path with
+  | hit => exact hhit
+  | fill => simp only [respondParsed]; rw [respondFill_eq_hit body _ hn]; exact hhit
+
+/-- … and the suffix of length zero is unsatisfiable: bare `416` on both paths, every non-empty body
+    (former finding C15-b) -/
+theorem range_suffix_zero_parsed (path : Path) (body : Bytes) (hn : body.length ≠ 0) :
+    respondParsed path 200 (some (body.length : Int)) body (some ⟨none, some 0⟩) = bare 416 := by
+  cases path with
+  | hit => exact hit_emptySuffix body _ hn (by simp [emptySuffix])
+  | fill =>
+    simp only [respondParsed]
+    rw [respondFill_eq_hit body _ hn]
+    exact hit_emptySuffix body _ hn (by simp [emptySuffix])
 
 /-- a parse fact for ALL header values: without the letter `b` (hence without `bytes=`) there is no range -/
 theorem getRange_none_without_unit (v : Bytes) (h : 98 ∉ v) : getRangeValue v = none := by
@@ -884,13 +960,19 @@ example : respond .hit 200 (some 6) b!"abcdef" (some b!"bytes=4-") = ⟨206, som
 example : respond .hit 200 (some 6) b!"abcdef" (some b!"bytes=2-9") = bare 416 := by decide
 example : textFromTo 1 3 = b!"bytes=1-3" ∧ textFrom 4 = b!"bytes=4-" ∧ textSuffix 2 = b!"bytes=-2" := by decide
 -- the domain of the arithmetic lemma is inhabited by each of the three forms
-example : InDomain 6 ⟨some 1, some 3⟩ ∧ InDomain 6 ⟨some 4, none⟩ ∧ InDomain 6 ⟨none, some (-2)⟩ := by
-  simp [InDomain]
+example : InDomain 6 ⟨some 1, some 3⟩ ∧ InDomain 6 ⟨some 4, none⟩ ∧ InDomain 6 ⟨none, some (-2)⟩ ∧
+    InDomain 6 ⟨none, some (-99)⟩ := by
+  simp [InDomain, minInt64]
 -- `Agrees` is not vacuous: the two parsers do meet on ordinary values
 example : getRange (rangeOnlyHeader (some b!"bytes=1-3")) = some ⟨some 1, some 3⟩ ∧
     parseRange (some b!"bytes=1-3") = .fromTo 1 3 := by decide
 example : getRange (rangeOnlyHeader (some b!"bytes=-2")) = some ⟨none, some (-2)⟩ ∧
     parseRange (some b!"bytes=-2") = .suffix 2 := by decide
+-- the repaired suffix theorems on concrete values: `k` beyond the length, and the parser does produce these ranges
+example : respondParsed .fill 200 (some 4) b!"abcd" (some ⟨none, some (-99)⟩) =
+    ⟨206, some b!"4", some b!"bytes 0-3/4", b!"abcd"⟩ := by decide
+example : getRange (rangeOnlyHeader (some b!"bytes=-99")) = some ⟨none, some (-99)⟩ ∧
+    getRange (rangeOnlyHeader (some b!"bytes=-0")) = some ⟨none, some 0⟩ := by decide
 -- `stored_full`: the rewrite on a concrete `206`
 example : storeRewrite (respond .fill 200 (some 6) b!"abcdef" (some b!"bytes=1-3")) = (200, some b!"6") := by decide
 -- parse facts
